@@ -59,8 +59,9 @@ def run(rep, tier, seed, replay):
                 for seq in itertools.product(ALPHA, repeat=d):
                     cases.append(" | ".join([str(th)] + list(seq)))
         for _ in range(300 if tier == "quick" else 5000):
-            th = rnd.choice([1, 2, 3, 4, 7, 1000])
-            cases.append(" | ".join([str(th)] + [rnd.choice(ALPHA + ["Q 9", "Q 17"]) for _ in range(rnd.randint(7, 30))]))
+            th = rnd.choice([1, 2, 3, 4, 7, 16, 32, 33, 64, 100, 1000, 4096])
+            big = ["Q %d" % th, "Q %d" % (th + 1), "Q %d" % (2 * th + 3), "Q %d" % max(th - 1, 0)] if 16 <= th <= 100 else []          # (the list-based model is quadratic in the call size)
+            cases.append(" | ".join([str(th)] + [rnd.choice(ALPHA + ["Q 9", "Q 17"] + big) for _ in range(rnd.randint(7, 30))]))
     d = vf.tmpdir("C16")
     cf = f"{d}/queue.cases"
     vf.write_lines(cf, cases)
@@ -108,7 +109,7 @@ def run(rep, tier, seed, replay):
             binary = "hx_race"
     stress = []
     for _ in range(60 if tier == "quick" else 1500):
-        stress.append((rnd.choice([1, 2, 3, 4, 16]), rnd.randint(0, 8), rnd.randint(1, 8), rnd.randint(1, 20), rnd.randint(0, 6),
+        stress.append((rnd.choice([1, 2, 3, 4, 16, 32, 64, 256]), rnd.randint(0, 8), rnd.randint(1, 8), rnd.randint(1, 20), rnd.randint(0, 6),
                        rnd.randint(0, 10), rnd.randint(0, 1), rnd.randrange(10**6)))
     sf = f"{d}/stress.cases"
     vf.write_lines(sf, [" ".join(map(str, s)) for s in stress])
